@@ -11,8 +11,9 @@ tier report a VIOLATION?  Prints a JSON summary (and merges it into <dir>/result
 import sys, os, json, subprocess, shutil, time, argparse, re
 
 ROOT = os.path.dirname(os.path.dirname(os.path.abspath(__file__)))
-WT = "/var/tmp/seedwt/wt"
-ENV = dict(os.environ, CARGO_NET_OFFLINE="true", CARGO_TARGET_DIR="/var/tmp/seedwt/target")
+SEEDWT = os.environ.get("SEEDWT_DIR", "/var/tmp/seedwt")   # one scratch worktree + target dir per concurrent runner
+WT = SEEDWT + "/wt"
+ENV = dict(os.environ, CARGO_NET_OFFLINE="true", CARGO_TARGET_DIR=SEEDWT + "/target")
 
 
 def sh(cmd, cwd=None, env=None, timeout=3600):
